@@ -407,5 +407,5 @@ def replay(ctx, history):
     replay_history(FileStore, ctx, history)
 
 
-SUBS = [Sub("machine", run, replay, quick=400, thorough=8000,
+SUBS = [Sub("machine", run, replay, quick=400, thorough=64000,
             min_per_shard=10)]
